@@ -826,6 +826,18 @@ func relatedPath(r *rng, p string) string {
 			}
 		}
 		return strings.Join(c, ".")
+	case 8:
+		// the array element itself through ANOTHER positional operator: a prefix that
+		// ends in a different operator at the same position ("a.$[x].v" and "a.$[y]"):
+		// invisible to the static check, caught only when the changes are recorded
+		for i := range segs {
+			if strings.HasPrefix(segs[i], "$[") && i+1 < len(segs) {
+				c := append([]string{}, segs[:i+1]...)
+				c[i] = pick(r, []string{"$[]", "$[x]", "$[y]", "$[el]"})
+				return strings.Join(c, ".")
+			}
+		}
+		return p
 	case 7:
 		// sibling: same parent, other last segment
 		c := append([]string{}, segs...)
@@ -1055,7 +1067,51 @@ func runApply(ac applyCase) string {
 	return "(" + enc(canonDates(*ac.doc, t0, t1, ac.now)) + " " + encChanges(ch.Changed, t0, t1, ac.now) + ")"
 }
 
+// genOverlapCase: two paths through one array with two DIFFERENT positional
+// identifiers ("a.$[x].v" next to "a.$[y]"): the static conflict check cannot
+// see an overlap, it shows only when both filters select a common element and
+// both invocations record a change. Order (deeper first or not), operators and
+// the overlap itself vary.
+func genOverlapCase(r *rng) string {
+	elems := bson.A{}
+	n := 2 + r.intn(2)
+	for i := 0; i < n; i++ {
+		elems = append(elems, bson.D{{Key: "k", Value: int32(i + 1)}, {Key: "v", Value: int32(0)}})
+	}
+	d := bson.D{{Key: "_id", Value: int32(1)}, {Key: "a", Value: elems}, {Key: "z", Value: "tail"}}
+	deep := bson.E{Key: "a.$[x].v", Value: int32(9)}
+	var whole bson.E
+	var opWhole string
+	switch r.intn(3) {
+	case 0:
+		opWhole, whole = "$set", bson.E{Key: "a.$[y]", Value: bson.D{{Key: "k", Value: int32(1)}, {Key: "w", Value: int32(9)}}}
+	case 1:
+		opWhole, whole = "$unset", bson.E{Key: "a.$[y]", Value: ""}
+	default:
+		opWhole, whole = "$set", bson.E{Key: "a.$[y].w", Value: int32(5)} // a sibling below the element: no conflict
+	}
+	opDeep := pick(r, []string{"$set", "$inc", "$max"})
+	var u bson.D
+	if opDeep == opWhole {
+		pairs := bson.D{deep, whole}
+		if r.chance(1, 2) {
+			pairs = bson.D{whole, deep}
+		}
+		u = bson.D{{Key: opDeep, Value: pairs}}
+	} else if r.chance(1, 2) {
+		u = bson.D{{Key: opDeep, Value: bson.D{deep}}, {Key: opWhole, Value: bson.D{whole}}}
+	} else {
+		u = bson.D{{Key: opWhole, Value: bson.D{whole}}, {Key: opDeep, Value: bson.D{deep}}}
+	}
+	fx := bson.D{{Key: "x.k", Value: int32(1 + r.intn(2))}}
+	fy := bson.D{{Key: "y.k", Value: pick(r, []interface{}{int32(1), int32(2), bson.D{{Key: "$gte", Value: int32(1)}}, int32(7)})}}
+	return encApplyCase(d, bson.D{}, u, false, bsonkit.List{&fx, &fy}, 1800000000000)
+}
+
 func genApplyCase(r *rng) string {
+	if r.chance(1, 60) {
+		return genOverlapCase(r)
+	}
 	d := genApplyDoc(r, 2, r.chance(1, 3))
 	u, filters := genUpdate(r, d)
 	for try := 0; try < 4 && mixedArith(d, u) && !r.chance(1, 8); try++ {
